@@ -29,6 +29,7 @@ def check_history(case):
     spec = case['spec']
     with G.workdir() as d:
         r = H.Runner(spec, case['path'], d)
+        r.observe_export = True
         r.run(case['ops'], 'shared')
     used = {op[1] for op in case['ops'] if op[0] in ('calc', 'call')}
     labels = sorted(set(r.labels)) + ['path:' + case['path']] + (['two-objects'] if len(used) >= 2 else [])
